@@ -217,3 +217,45 @@ def in_dst_single(rep, prog, rule="IN-DST"):
             else:
                 rep.ok(rule, key, how="%d use(s) of the DST offset, each under in_dst" % sites, loc=f.loc())
     rep.floor(rule + " functions", n, 8)
+
+
+def fold_agree(rep, prog, rule="FOLD-AGREE"):
+    """names are sorted by their ASCII-lowercase form and looked up by binary search with a comparator that must induce
+    the same order: the comparator folds with the same function that built the key"""
+    rep.rule(rule, "the zoneinfo name list is ordered by the key `lower` = name.to_ascii_lowercase() (Ord for ZoneInfoName compares "
+                   "that field) and binary-searched with util::utf8::cmp_ignore_ascii_case, so the comparator must fold both sides "
+                   "with u8::to_ascii_lowercase as well: folding to upper case is the same equivalence but a different order ('_' "
+                   "sorts before letters in one and after them in the other), and a binary search under a different order misses "
+                   "names that are present")
+    f = prog.fns.get("jiff::util::utf8::cmp_ignore_ascii_case_bytes")
+    if f is None:
+        rep.anchor_missing("util::utf8::cmp_ignore_ascii_case_bytes")
+        return
+    bodies = [f] + [g for g in prog.fns.values() if g.crate == "jiff" and g.is_closure and g.path.startswith(f.path + "::{closure")]
+    folds = [t.get("path", "") for g in bodies for _, t in mir.iter_calls(g) if "to_ascii_" in t.get("path", "") or "to_lowercase" in t.get("path", "") or "to_uppercase" in t.get("path", "")]
+    lower = [p for p in folds if p.endswith("to_ascii_lowercase")]
+    if len(lower) >= 2 and len(lower) == len(folds):
+        rep.ok(rule, "comparator fold", how="%d x u8::to_ascii_lowercase" % len(lower), loc=f.loc())
+    else:
+        rep.violation(rule, "comparator fold", "cmp_ignore_ascii_case_bytes folds with %s; the sort key is the ASCII-lowercase name" % sorted(set(folds)), f.loc())
+    k = [g for g in prog.fns.values() if g.crate == "jiff" and not g.is_closure and g.path.endswith("ZoneInfoName::new") and "zoneinfo" in g.path]
+    if not k:
+        if any(g.path.startswith("tz::db::zoneinfo::inner") for g in prog.fns.values()):
+            rep.anchor_missing("tz::db::zoneinfo ZoneInfoName::new")
+        return
+    kf = [t.get("path", "") for _, t in mir.iter_calls(k[0]) if "to_ascii_" in t.get("path", "") or "to_lowercase" in t.get("path", "") or "to_uppercase" in t.get("path", "")]
+    if kf and all(p.endswith("to_ascii_lowercase") for p in kf):
+        rep.ok(rule, "sort key fold", how="str::to_ascii_lowercase", loc=k[0].loc())
+    else:
+        rep.violation(rule, "sort key fold", "ZoneInfoName::new builds its key with %s; the comparator folds to ASCII lower case" % kf, k[0].loc())
+    o = [g for g in prog.fns.values() if g.crate == "jiff" and "ZoneInfoName as core::cmp::Ord>::cmp" in g.path]
+    if o:
+        T = Terms(o[0])
+        r = T.returns()
+        fields = {x[2] for x in walk(r) if isinstance(x, tuple) and x and x[0] == "field"}
+        if "lower" in fields and "original" not in fields:
+            rep.ok(rule, "order", how="Ord for ZoneInfoName compares `lower`", loc=o[0].loc())
+        else:
+            rep.violation(rule, "order", "Ord for ZoneInfoName compares fields %s, expected `lower`" % sorted(fields), o[0].loc())
+    else:
+        rep.anchor_missing("Ord for ZoneInfoName")
